@@ -34,7 +34,11 @@ from engines import targets_c20 as T
 from vlib.core import HarnessError, bad, inconclusive, ok
 
 LEVEL = 'exploration'
-RULE = ('hist: Hypothesis lists of 6-40 steps [new type | op actor slot '
+RULE = ('shared: histories of get/copy/append/read/drop/forked-client steps over '
+        'referents that several proxies share through a registered callable (the '
+        'remote-manager pattern); non-trivial when one of several proxies to the '
+        'same referent is dropped or a client uses it while another proxy lives. '
+        'hist: Hypothesis lists of 6-40 steps [new type | op actor slot '
         'method args | copy | hand src->dst | drop | drop-all-others | fork | '
         'exit] with '
         'index-modulo addressing over main thread, 1-3 client threads, 0-2 '
@@ -1546,8 +1550,11 @@ def execute_auth(case):
 
 # ---------------------------------------------------------------------------
 
+from engines import c20shared
+
 PARTS = {'hist': execute_hist, 'conc': execute_conc,
-         'registered': execute_registered, 'auth': execute_auth}
+         'registered': execute_registered, 'auth': execute_auth,
+         'shared': c20shared.execute}
 
 
 def _rounds(ctx, part, make_strategy, execute, n, budget, **kw):
@@ -1587,6 +1594,9 @@ def run(ctx):
                 execute_registered, 2 if q else 4, 100, shrink_budget=0)
         _rounds(ctx, 'auth', auth_cases, execute_auth, 4 if q else 20, 60,
                 shrink_budget=20 if q else 60)
+        # referents shared by several proxies through a registered callable
+        _rounds(ctx, 'shared', c20shared.cases, c20shared.execute,
+                10 if q else 40, 120, shrink_budget=30 if q else 100)
         ctx.notes['managers_started'] = _M['started']
     finally:
         _shutdown_manager()
